@@ -217,6 +217,9 @@ theorem gas_roles_step (H : Bytes → Bytes) (st : GasService.State) (op : GasSe
     | adminMint t d a =>
       obtain ⟨-, b, -, rfl⟩ := Cgp.Props.C14.adminMint_inv hr
       exact ⟨rfl, Or.inl rfl⟩
+    | upgradeMigrate au =>
+      cases (GasService.apply_upgradeMigrate_ok H st au _ hr).1
+      exact ⟨rfl, Or.inl rfl⟩
 
 /-! ### operators contract -/
 
@@ -283,6 +286,8 @@ theorem operators_owner_step {τ : Type} (tgt : Operators.Target τ) (w : Operat
     cases hr : Operators.execute tgt w.self w.st w.ts au o c f args with
     | error e => rfl
     | ok r => rfl
+  | upgradeMigrate au =>
+    left; rw [Operators.step_upgradeMigrate_fst]
 
 /-! ### interchain token service -/
 
@@ -373,6 +378,8 @@ theorem its_roles_step (H S : Bytes → Bytes) (k : Its.Consts) (st : Its.State)
       · exact ⟨rfl, rfl⟩
       · exact ⟨rfl, rfl⟩
     · exact ⟨rfl, rfl⟩
+  | upgradeMigrate au =>
+    left; rw [Its.step_upgradeMigrate_fst]; exact ⟨rfl, rfl⟩
 
 /-! ### token: owner, minters, owner minting -/
 
